@@ -169,20 +169,35 @@ type c20State struct {
 	Chal       string
 }
 
+// c20Rec records call/return stamps at the client boundary. The stamps come from the
+// process's monotonic clock and every client appends to its own buffer: the recorder adds
+// no synchronisation between goroutines, so it cannot hide a data race from the detector.
 type c20Rec struct {
-	mu  sync.Mutex
-	clk atomic.Int64
-	ops []porcupine.Operation
+	t0     time.Time
+	perCli [][]porcupine.Operation
+	ops    []porcupine.Operation // merged after the round
+}
+
+func newC20Rec(clients int) *c20Rec {
+	return &c20Rec{t0: time.Now(), perCli: make([][]porcupine.Operation, clients)}
 }
 
 func (r *c20Rec) do(client int, in c20Op, f func() c20Out) c20Out {
-	call := r.clk.Add(1)
+	call := int64(time.Since(r.t0))
 	out := f()
-	ret := r.clk.Add(1)
-	r.mu.Lock()
-	r.ops = append(r.ops, porcupine.Operation{ClientId: client, Input: in, Call: call, Output: out, Return: ret})
-	r.mu.Unlock()
+	ret := int64(time.Since(r.t0))
+	if ret <= call {
+		ret = call + 1
+	}
+	r.perCli[client] = append(r.perCli[client], porcupine.Operation{ClientId: client, Input: in, Call: call, Output: out, Return: ret})
 	return out
+}
+
+func (r *c20Rec) merge() {
+	r.ops = nil
+	for _, l := range r.perCli {
+		r.ops = append(r.ops, l...)
+	}
 }
 
 func c20Model(nonce string) porcupine.Model {
@@ -233,6 +248,7 @@ func c20Model(nonce string) porcupine.Model {
 }
 
 func c20Check(k *fw.K, name string, rec *c20Rec, nonce string) {
+	rec.merge()
 	k.AddEvals(int64(len(rec.ops)))
 	// distinct interleaving = order of returns
 	ops := append([]porcupine.Operation{}, rec.ops...)
@@ -292,9 +308,9 @@ func c20MobileReader(k *fw.K, round int) {
 	if err != nil {
 		fw.Bug("mobile password: %v", err)
 	}
-	rec := &c20Rec{}
 	var wg sync.WaitGroup
 	nG := 4 + r.IntN(4)
+	rec := newC20Rec(nG)
 	seeds := make([]uint64, nG)
 	for i := range seeds {
 		seeds[i] = r.Uint64()
@@ -304,7 +320,8 @@ func c20MobileReader(k *fw.K, round int) {
 		go func(g int) {
 			defer wg.Done()
 			lr := mrand.New(mrand.NewPCG(seeds[g], 2))
-			for n := 0; n < 3; n++ {
+			for n := 0; n < 4; n++ {
+				time.Sleep(time.Duration(lr.IntN(1500)) * time.Microsecond)
 				switch lr.IntN(5) {
 				case 0, 1:
 					rec.do(g, c20Op{Kind: "read"}, func() c20Out {
@@ -349,7 +366,7 @@ func c20Reader(k *fw.K, round int) {
 	if err != nil {
 		fw.Bug("password: %v", err)
 	}
-	rec := &c20Rec{}
+	rec := newC20Rec(4)
 	var wg sync.WaitGroup
 	wg.Add(1)
 	go func() {
@@ -371,10 +388,9 @@ func c20Reader(k *fw.K, round int) {
 		go func(g int) {
 			defer wg.Done()
 			lr := mrand.New(mrand.NewPCG(seeds[g-1], 2))
-			for n := 0; n < 2; n++ {
-				for y := lr.IntN(30); y > 0; y-- {
-					runtime.Gosched()
-				}
+			for n := 0; n < 6; n++ {
+				// spread the setters over the duration of the read
+				time.Sleep(time.Duration(lr.IntN(4000)) * time.Microsecond)
 				if lr.IntN(2) == 0 {
 					rec.do(g, c20Op{Kind: "skipimages"}, func() c20Out { rd.SkipImages(); return c20Out{} })
 				} else {
@@ -441,9 +457,9 @@ func c20Verifier(k *fw.K, round int, viaMobile bool) {
 		}
 		setCh = func(c []byte) { v.WithAAChallenge(c) }
 	}
-	rec := &c20Rec{}
 	var wg sync.WaitGroup
 	nG := 4 + r.IntN(4)
+	rec := newC20Rec(nG)
 	seeds := make([]uint64, nG)
 	for i := range seeds {
 		seeds[i] = r.Uint64()
@@ -454,6 +470,7 @@ func c20Verifier(k *fw.K, round int, viaMobile bool) {
 			defer wg.Done()
 			lr := mrand.New(mrand.NewPCG(seeds[g], 2))
 			for n := 0; n < 4; n++ {
+				time.Sleep(time.Duration(lr.IntN(800)) * time.Microsecond)
 				if lr.IntN(3) != 0 {
 					rec.do(g, c20Op{Kind: "verify"}, func() c20Out {
 						ok, mism := verify()
@@ -668,7 +685,7 @@ func tailStr(s string, n int) string {
 }
 
 func runC20(c *fw.Ctx) {
-	rounds := c.Pick(10, 100)
+	rounds := c.Pick(16, 120)
 	type wl struct {
 		name string
 		f    func(k *fw.K, round int)
